@@ -237,3 +237,111 @@ def run(report, tier, seed, driver, proofs_ok):
                                  oracle="tcanon(CFModel(**m.model_dump())) == tcanon(m)")
     for k, v in sorted(coverage.items()):
         report.count("covered:" + k, v)
+    if driver is not None:
+        cast_roundtrip(report, rng, driver, 6000 if thorough else 500)
+        leaf_validators(report, rng, driver, 4000 if thorough else 400)
+
+
+def pydump(x):
+    from pydantic import BaseModel
+
+    if isinstance(x, BaseModel):
+        return x.model_dump()
+    if isinstance(x, list):
+        return [pydump(v) for v in x]
+    return x
+
+
+def cast_roundtrip(report, rng, driver, n):
+    """the generic casting applied to its own dump, implementation against `cast (dump (cast j))` (C15_cast_roundtrip),
+    with the theorem's hypotheses evaluated by the driver on the engine table of each case"""
+    import json
+
+    from pycfmodel.model.generic import _Auxiliar
+
+    values = [gen_generic_value(rng) for _ in range(n)] + ["\"[1,2]\"", ["\"5\""], {"a": "\"{\\\"Ref\\\":\\\"x\\\"}\""}]
+    ops, rows = [], []
+    for v in values:
+        eng = c18.Engine()
+        eng.add_value(v)
+        try:
+            r1 = common.with_timeout(_Auxiliar.cast, 5.0, json.loads(json.dumps(v)))
+            d = pydump(r1)
+            r2 = common.with_timeout(_Auxiliar.cast, 5.0, d)
+            io = {"first": c18.cv_of(r1), "second": c18.cv_of(r2), "equal": tcanon(r1) == tcanon(r2)}
+            eng.add_value(d)
+        except (Exception, common.WallClockExceeded) as e:
+            io = {"raised": common.exc_class(e), "message": str(e)[:200]}
+        ops.append({"op": "roundtrip", "value": common.enc(v), "engine": eng.wire(), "fuel": 8})
+        rows.append((v, io))
+    outs = driver.run(ops, timeout=1800)
+    for (v, io), mo in zip(rows, outs):
+        if "driver_error" in mo:
+            raise common.InfraError(str(mo)[:500])
+        report.count("cast-round-trip:" + type(v).__name__)
+        if "raised" in io:
+            report.violation("oracle", "cast-of-own-dump-raises-" + io["raised"], op={"value": v}, impl=io)
+            continue
+        if not io["equal"]:
+            report.violation("oracle", "generic-cast-of-own-dump-differs", op={"value": v}, impl=io, model={"first": mo["first"], "second": mo["second"]},
+                             oracle="_Auxiliar.cast(dump(_Auxiliar.cast(v))) == _Auxiliar.cast(v), classes and leaf types included")
+        if mo["fuel_short"] or not mo["law_empty"]:
+            report.count("theorem-hypothesis-not-met:" + ("fuel" if mo["fuel_short"] else "empty-object-is-a-model"))
+            if not mo["law_empty"]:
+                report.violation("correspondence", "engine-law-fails:empty-object-accepted-as-a-property-model", op={"value": v}, model=mo)
+            continue
+        if mo["equal"] != io["equal"] or mo["second"] != io["second"]:
+            report.disagreements_checked += 1
+            report.violation("correspondence", "cast-round-trip-differs-from-model", op={"op": "roundtrip", "value": v}, impl=io, model={"first": mo["first"], "second": mo["second"], "equal": mo["equal"]},
+                             oracle="Cast.cast E fuel (Cast.dump (Cast.cast E fuel j)) (C15_cast_roundtrip)")
+
+
+B64 = "ABCDEFGHIJKLMNOPQRSTUVWXYZabcdefghijklmnopqrstuvwxyz0123456789+/"
+
+
+def leaf_validators(report, rng, driver, n):
+    """semi-strict bool, base64 binary and operator-name validators against their Lean models, and on their own dumps"""
+    from pycfmodel.model.resources.properties.statement_condition import StatementCondition
+    from pycfmodel.model.types import SemiStrictBool, validate_binary
+
+    ops, rows = [], []
+    for i in range(n):
+        k = rng.randrange(3)
+        if k == 0:
+            body = "".join(rng.choice(B64 + " \n-_.") for _ in range(rng.randrange(0, 14)))
+            text = body + "=" * rng.choice([0, 0, 1, 2, 3]) + rng.choice(["", "", " ", "\n", "=."])
+            try:
+                b = validate_binary(text)
+                io = {"bytes": list(b)}
+                again = validate_binary(b)
+                if bytes(again) != bytes(b):
+                    report.violation("oracle", "binary-validator-changes-its-own-output", op={"text": text}, impl={"first": list(b), "second": list(again)})
+            except ValueError:
+                io = {"error": True}
+            except Exception as e:
+                report.violation("oracle", "binary-validator-raises-" + common.exc_class(e), op={"text": text})
+                continue
+            ops.append({"op": "b64", "text": text})
+            rows.append(("b64", text, io))
+        else:
+            v = rng.choice([True, False, "true", "FALSE", "True", "tRuE", "yes", "1", 1, 0, None, "", "false ", [], 1.0])
+            name = rng.choice(["ForAllValues:StringLike", "StringEquals", "ForAnyValue:ArnLikeIfExists", "::", "a:b:c", "Bool"])
+            try:
+                sb = SemiStrictBool(v)
+                if SemiStrictBool(sb) is not sb:
+                    report.violation("oracle", "semi-strict-bool-changes-its-own-output", op={"value": v})
+            except ValueError:
+                sb = None
+            nc = next(iter(StatementCondition.remove_colon({name: None})))
+            if next(iter(StatementCondition.remove_colon({nc: None}))) != nc:
+                report.violation("oracle", "colon-removal-not-idempotent", op={"name": name})
+            ops.append({"op": "leaves15", "value": common.enc(v), "name": name})
+            rows.append(("leaves", (v, name), {"semi_bool": sb, "no_colon": nc}))
+    outs = driver.run(ops)
+    for (kind, inp, io), mo in zip(rows, outs):
+        if "driver_error" in mo:
+            raise common.InfraError(str(mo)[:500])
+        report.count("leaf-validator:" + kind)
+        if mo != io:
+            report.disagreements_checked += 1
+            report.violation("correspondence", f"leaf-validator-{kind}-differs", op={"input": inp}, impl=io, model=mo)
